@@ -19,7 +19,12 @@ use std::path::{Path, PathBuf};
 use std::sync::Mutex;
 use std::time::{Duration, Instant};
 
-pub const VERIF: &str = "/verif";
+/// Root of the verification tree (evidence/, regress/, replays/, target/, corpus/, known_findings.txt).
+/// `JBKV_VERIF_DIR` overrides it so that a scratch copy of the harness (mutation sweeps against a
+/// scratch copy of the repository) never writes into /verif.
+pub fn verif_dir() -> String {
+    std::env::var("JBKV_VERIF_DIR").unwrap_or_else(|_| "/verif".to_string())
+}
 
 #[derive(Clone, Copy, PartialEq, Eq, Debug)]
 pub enum Tier {
@@ -272,7 +277,7 @@ pub struct Finding {
 
 pub fn load_findings() -> Vec<Finding> {
     let mut res = vec![];
-    let Ok(txt) = std::fs::read_to_string(format!("{VERIF}/known_findings.txt")) else {
+    let Ok(txt) = std::fs::read_to_string(format!("{}/known_findings.txt", verif_dir())) else {
         return res;
     };
     for line in txt.lines() {
@@ -747,7 +752,7 @@ pub fn env_seed() -> u64 {
 }
 
 pub fn save_replay(id: &str, tag: &str, saved: &SavedFailure) -> PathBuf {
-    let dir = PathBuf::from(format!("{VERIF}/replays"));
+    let dir = PathBuf::from(format!("{}/replays", verif_dir()));
     std::fs::create_dir_all(&dir).unwrap();
     let p = dir.join(format!("{id}-{tag}.json"));
     std::fs::write(&p, serde_json::to_string_pretty(saved).unwrap()).unwrap();
@@ -757,7 +762,7 @@ pub fn save_replay(id: &str, tag: &str, saved: &SavedFailure) -> PathBuf {
 /// Step 1 of every check: replay committed regression files and known-finding witnesses.
 pub fn replay_regress(id: &str, summary: &mut RunSummary) {
     let findings: Vec<Finding> = load_findings().into_iter().filter(|f| f.property == id).collect();
-    let dir = PathBuf::from(format!("{VERIF}/regress"));
+    let dir = PathBuf::from(format!("{}/regress", verif_dir()));
     let mut files: Vec<PathBuf> = std::fs::read_dir(&dir)
         .map(|d| {
             d.filter_map(|e| e.ok().map(|e| e.path()))
@@ -984,7 +989,7 @@ pub fn run_workers<P: Property>(tier: Tier, seed: u64, summary: &mut RunSummary)
                         let _ = child.wait();
                         children[w] = None;
                         let saved = std::fs::read(&inflight).ok();
-                        let p = PathBuf::from(format!("{VERIF}/replays"));
+                        let p = PathBuf::from(format!("{}/replays", verif_dir()));
                         std::fs::create_dir_all(&p).unwrap();
                         let p = p.join(format!("{}-s{seed}-w{w}-timeout.json", P::ID));
                         if let Some(b) = saved {
@@ -1124,7 +1129,7 @@ pub fn write_evidence(
         "wall_s": t0.elapsed().as_secs_f64(),
         "violations": summary.violations.len(),
     });
-    let dir = PathBuf::from(format!("{VERIF}/evidence"));
+    let dir = PathBuf::from(format!("{}/evidence", verif_dir()));
     std::fs::create_dir_all(&dir).unwrap();
     let suffix = std::env::var("JBKV_EVIDENCE_SUFFIX").unwrap_or_default();
     std::fs::write(
